@@ -95,8 +95,7 @@ theorem validateRelaxed_mono (X : Input) (rc rc' : Pid → Rat) (stable exhausti
     rw [s5R_iff]
     intro c hc hpos
     apply h5 c hc
-    have := round2_mono (h c hc)
-    unfold roundCmp at hpos ⊢
+    have := roundCmp_mono (le_refl (stableOf X c)) (h c hc)
     linarith
 
 /-! ### a relaxation that does not relax -/
@@ -166,8 +165,7 @@ theorem validateRelaxed_complete (X : Input) (rc : Pid → Rat) (stable exhausti
         | true => right; exact (c0b_iff X).mpr (E.exhaust rfl)
       · rw [cNeg_iff]
         intro v hv c hc
-        have h := round2_mono (E.nonneg v hv c hc)
-        unfold roundCmp
+        have h := roundCmp_nonneg (E.nonneg v hv c hc)
         linarith
       · rw [c2_iff]
         intro v hv
